@@ -30,9 +30,10 @@ HOSTILE_NAMES = ["class", "def", "return", "import", "None", "True", "match", "t
                  "fooBar", "FooBar", "foo_bar", "foo-bar", "FOOBAR", "Élan", "naïve", "a", "A", "x1", "value", "Value", "VALUE", "object",
                  "self", "cls", "id", "async", "await", "lambda", "global", "nonlocal", "yield", "try", "pass", "del", "in", "is",
                  "not", "or", "and", "if", "else", "for", "while", "from", "as", "assert", "break", "continue", "except", "finally",
-                 "raise", "len", "print", "property", "super", "isinstance", "a" * 70, "X_", "x__y", "Inner", "Element", "Attribute"]
+                 "raise", "len", "print", "property", "super", "isinstance", "a" * 70, "X_", "x__y", "Inner", "Element", "Attribute",
+                 "é1x", "ö-3", "ø5m", "ü2x"]   # (a name that reduces to digits only, like é1, is a recorded C07 finding)
 ENUM_VALUES_HOSTILE = ["", " ", "1", "+1", "-", "--", "a b", "class", "None", "*", "/", "%", "é", "A", "a", "a_b", "a-b", "a.b", "9lives",
-                       "true", "TRUE", "  lead", "x" * 60, "()", "'", '"', "\\", "a\tb"]
+                       "true", "TRUE", "  lead", "x" * 60, "()", "'", '"', "\\", "a\tb", "β1", "é2"]
 
 BUILTINS = ["string", "int", "integer", "long", "short", "decimal", "double", "float", "boolean", "date", "dateTime", "time",
             "duration", "gYear", "gYearMonth", "gMonthDay", "hexBinary", "base64Binary", "anyURI", "token", "NMTOKEN", "QName",
@@ -239,6 +240,8 @@ class _B:
         if kind != "all" and not self.plain:
             p["min"] = d(st.sampled_from([1, 1, 0]))
             p["max"] = d(st.sampled_from([1, 1, 1, 2, None]))
+        if kind == "all":
+            p["min"] = d(st.sampled_from([1, 1, 0]))        # <xs:all minOccurs="0">: the whole group may be absent
         # a quarter of the groups are "textbook" shapes: everything below them occurs exactly once, and choices nest more often
         prev_plain, self.plain = self.plain, self.plain or d(st.integers(0, 3)) == 0
         # inside an optional group or a choice an element may be absent whatever its own minOccurs
@@ -376,7 +379,10 @@ class _B:
 
         def grp(kind, items, min=1, max=1):
             return {"k": kind, "min": min, "max": max, "items": items}
-        which = d(st.integers(0, 5))
+        which = d(st.integers(0, 6))
+        if which == 6:      # sequence(a, choice(sequence(b, c, d) | sequence(x, y)), e)
+            return grp("sequence", [el(), grp("choice", [grp("sequence", [el() for _ in range(d(st.integers(2, 3)))]),
+                                                          grp("sequence", [el() for _ in range(d(st.integers(2, 3)))])]), el()])
         if which == 0:      # choice(a | sequence(b, c[, d]))
             return grp("choice", [el(), grp("sequence", [el() for _ in range(d(st.integers(2, 3)))])], min=d(st.sampled_from([0, 1])))
         if which == 1:      # sequence(a, choice(b | c)*, d)
